@@ -260,6 +260,13 @@ class WebSocket:
             Pre-initialized stream socket.
         """
         self.sock_opt.timeout = options.get("timeout", self.sock_opt.timeout)
+        # A new connection starts with a clean receive state: nothing of a
+        # frame or fragmented message cut off on an earlier connection of this
+        # object may be carried over into the new byte stream.
+        self.frame_buffer.clear()
+        self.frame_buffer.recv_buffer = []
+        self.cont_frame.cont_data = None
+        self.cont_frame.recving_frames = None
         self.sock, addrs = connect(
             url, self.sock_opt, proxy_info(**options), options.pop("socket", None)
         )
